@@ -14,3 +14,12 @@ def run(ck):
     ck.rule('C11.x', 'the checksum recomputation walks the whole data region chunk by chunk, address and count moving together, and reports success only with nothing left (C10.b/C10.c walker instances of persistent_calculate_checksum re-evaluated; what the fold computes from the chunks is decided under C10)')
     reevaluate(ck, 'C11.x', 'c10', lambda r, k: r in ('C10.b', 'C10.c') and k.startswith('persistent_calculate_checksum:') and not k.endswith((':fold', ':result')),
                'the recomputed checksum covers every octet of the data region')
+    # an operation that changes the instance's description of the store for its own purposes (a narrowed window, a
+    # temporary seed) has to put it back on every way out - also on the I/O-error return, after which the instance is used on
+    ck.rule('C11.y', 'a field of the instance that an operation changes and restores (save / modify / restore, busy marks) is restored on every way out, the I/O-error returns included')
+    from .common import bracket_rule
+    from .. import cast as _cast, sym as _sym
+    from .c10 import UNIT as _UNIT
+    _u = _cast.load(_UNIT)
+    bracket_rule(ck, 'C11.y', _u, lambda: _sym.Engine(_u, sizeof=_sym.unit_sizeofs(_UNIT, _u)), ('persistent-storage.c',))
+
